@@ -239,6 +239,93 @@ func ruleTrSeqAfterFlush(p *Prog, r *Report, rule string) {
 		return succ != nilEdge
 	}
 	ordPrecede(p, r, fn, "wait-before-seq-capture", noFrozen, evMemFlushWait(), "a wait for the frozen-buffer flush", capture, "the capture of db.seq")
+	// a wait that FAILED is not a flush: wherever the wait is issued on behalf of a caller that goes
+	// on (rotateMem with wait=true, OpenTransaction itself), its error is what the function returns
+	for _, name := range []string{"(*DB).rotateMem", "(*DB).OpenTransaction"} {
+		f := resolveFn(p, r, "leveldb", name)
+		if f == nil {
+			continue
+		}
+		wait := andPred(evCall("(*leveldb.DB).compTriggerWait"), predArg(1, mChanField(tDB, "mcompCmdC")))
+		if countInstr(f, wait) == 0 {
+			continue
+		}
+		r.Site(1)
+		if w := failedCallEscapes(f, wait, "(*leveldb.DB).compTriggerWait"); w != nil {
+			r.Fail(fnName(f), "failed-wait-is-failure", "when the wait for the frozen-buffer flush fails, the function returns that error", "a path on which compTriggerWait(mcompCmdC) returned an error reaches a return that does not carry it: the caller takes the buffer for flushed, a transaction records a sequence number ahead of writes that exist only in the old journal, and they are skipped at the next recovery", p.posOfLast(w, isReturn), p.renderPath(w))
+		} else {
+			r.OK(fnName(f), "failed-wait-is-failure", "when the wait for the frozen-buffer flush fails, the function returns that error")
+		}
+	}
+}
+
+// failedCallEscapes: a path from a call (matching `call`, callee `calleeName`) on which the call's
+// error result is non-nil wherever it is tested, to a return whose error result is not that error:
+// the value is neither returned directly nor stored into the returned result cell on the path.
+func failedCallEscapes(fn *ssa.Function, call InstrPred, calleeName string) []*ssa.BasicBlock {
+	isErr := mErrOfCall(calleeName)
+	edges := onlyWhenErr(func(v ssa.Value) bool { return isErr(v) || isErr(testedValue(v)) })
+	var witness []*ssa.BasicBlock
+	for _, st := range after(fn, call) {
+		// was the error stored into a cell right away (err = call())? then the cell carries it
+		storedTo := map[*ssa.Alloc]bool{}
+		onPath := map[*ssa.BasicBlock]bool{}
+		var path []*ssa.BasicBlock
+		count := 0
+		var dfs func(b *ssa.BasicBlock, from int, cells map[*ssa.Alloc]bool)
+		dfs = func(b *ssa.BasicBlock, from int, cells map[*ssa.Alloc]bool) {
+			if witness != nil || count > 2000 {
+				return
+			}
+			count++
+			onPath[b] = true
+			path = append(path, b)
+			defer func() { onPath[b] = false; path = path[:len(path)-1] }()
+			cur := map[*ssa.Alloc]bool{}
+			for k, v := range cells {
+				cur[k] = v
+			}
+			for i := from; i < len(b.Instrs); i++ {
+				switch x := b.Instrs[i].(type) {
+				case *ssa.Store:
+					if al := resolveCell(x.Addr); al != nil {
+						cur[al] = isErr(stripConv(x.Val))
+					}
+				case *ssa.Return:
+					ok := false
+					for _, res := range x.Results {
+						if !isErrorType(res.Type()) {
+							continue
+						}
+						v := stripConv(resolveAlong(stripConv(res), path))
+						if isErr(v) {
+							ok = true
+						}
+						if u, isU := v.(*ssa.UnOp); isU {
+							if al := resolveCell(u.X); al != nil && cur[al] {
+								ok = true
+							}
+						}
+					}
+					if !ok {
+						witness = append([]*ssa.BasicBlock(nil), path...)
+					}
+					return
+				}
+			}
+			for si, s := range b.Succs {
+				if !edges(b, si) || onPath[s] {
+					continue
+				}
+				dfs(s, 0, cur)
+			}
+		}
+		dfs(st.b, st.i, storedTo)
+		if witness != nil {
+			return witness
+		}
+	}
+	return nil
 }
 
 // ---- C04.12 -----------------------------------------------------------------------------
